@@ -138,6 +138,11 @@ def run(ctx):
             y[y == c] = -1
         if len(np.unique(y[y >= 0])) < 2:
           continue
+        # the type the labels are held in is immaterial (same names, -1 still means unknown)
+        ydt = [np.int64, np.int32, np.float64, np.int8, np.float32][(rep + 2 * layouts.index(layout)) % 5]
+        if np.abs(y).max() < 120:
+          y = y.astype(ydt)
+          ctx.hist('label_dtype', np.dtype(ydt).name)
         kw = fits.base_kwargs(name, data)
         kw['random_state'] = int(rng.integers(0, 1000))
         variant = int(rng.integers(0, 2))
